@@ -17,5 +17,22 @@ Definition s_context : list (hunk string) -> bool := spec_context.
 Definition s_changes : list (hunk string) -> bool := spec_changes.
 Definition s_lines : string -> list string := lines_of.
 
-Extraction "diffmodel.ml" m_diff m_diffmatch_empty m_render_items
+(* the inner functions and their contracts (function-level correspondence) *)
+Definition m_flm : list string -> list string -> nat -> nat -> nat -> nat -> mtch := find_longest_match String.eqb.
+Definition m_blocks : list string -> list string -> option (list mtch) := matching_blocks String.eqb.
+Definition m_opcodes : list string -> list string -> option (list opcode) := get_opcodes String.eqb.
+Definition m_groups : list string -> list string -> option (list (list opcode)) := grouped_opcodes String.eqb 3.
+Definition m_format_range (start stop : nat) : string := render_range (format_range start stop).
+Definition m_split_lines : string -> list string := split_lines.
+Definition m_diff_lines : list string -> list string -> option string := diff_lines.
+Definition s_flm_ok : list string -> list string -> nat -> nat -> nat -> nat -> mtch -> bool := flm_okb String.eqb.
+Definition s_flm_max : list string -> list string -> nat -> nat -> nat -> nat -> mtch -> bool := flm_maxb String.eqb.
+Definition s_blocks_ok (a b : list string) (ms : list mtch) : bool := blocks_okb String.eqb a b 0 0 ms.
+Definition s_tiles_ok (a b : list string) (cs : list opcode) : bool :=
+  tiles_okb String.eqb a b 0 0 cs (List.length a) (List.length b).
+Definition s_patch_lines : list string -> list string -> list (hunk string) -> bool := spec_patch_lines.
+Definition s_empty_iff_lines : list string -> list string -> string -> bool := spec_empty_iff_lines.
+
+Extraction "diffmodel.ml" m_flm m_blocks m_opcodes m_groups m_format_range m_split_lines m_diff_lines
+  s_flm_ok s_flm_max s_blocks_ok s_tiles_ok s_patch_lines s_empty_iff_lines m_diff m_diffmatch_empty m_render_items
   s_parse s_empty_iff s_patch s_headers s_context s_changes s_lines.
